@@ -209,7 +209,44 @@ def hooks():
             i = w.deref_val(env, argv[1])
             if CW.is_const(i) and isinstance(i[1], int) and 0 <= i[1] < len(v0[1]):
                 return v0[1][i[1]]
+            if i[0] == "adt" and re.search(r"ops::Range(From|To|Full)?$", str(i[1])):
+                # a sub-slice by a range of known bounds
+                lo = w.deref_val(env, w.field(i, "start")) if any(k == "start" for k, _ in i[4]) else CW.const(0)
+                hi = w.deref_val(env, w.field(i, "end")) if any(k == "end" for k, _ in i[4]) else CW.const(len(v0[1]))
+                if CW.is_const(lo) and CW.is_const(hi) and isinstance(lo[1], int) and isinstance(hi[1], int) and 0 <= lo[1] <= hi[1] <= len(v0[1]):
+                    return lst(v0[1][lo[1]:hi[1]])
             return None
+        if re.search(r"slice::<impl \[T\]>::(partition_point|binary_search_by)$", nm) and v0[0] == "list" and len(argv) > 1:
+            # ordered searches on a known list: the closure is evaluated on every element (that its outcomes
+            # are monotone along the list is a separate obligation, decided by engine.ordsearch)
+            clo = w.deref_val(env, argv[1])
+            if clo[0] == "closure":
+                # what the closure captured by reference is looked up here: its body is walked on an environment of its own
+                clo = ("closure", clo[1], tuple((k, w.deref_val(env, x)) for k, x in clo[2]))
+            outs = []
+            for x in v0[1]:
+                r = call_closure(w, clo, [x])
+                if r is None:
+                    return None
+                outs.append(r)
+            if nm.endswith("partition_point"):
+                k = 0
+                for r in outs:
+                    if not (CW.is_const(r) and r[1] in (0, 1, True, False)):
+                        return None
+                    if not r[1]:
+                        break
+                    k += 1
+                return CW.const(k)
+            for idx, r in enumerate(outs):
+                if not (r[0] == "adt" and r[1] == "std::cmp::Ordering"):
+                    return None
+                if r[2] == "Equal":
+                    return CW.adt("std::result::Result", "Ok", 0, [("0", CW.const(idx))])
+            return CW.adt("std::result::Result", "Err", 1, [("0", CW.TOP)])
+        if re.search(r"result::Result::<T, E>::(is_ok|is_err)$|option::Option::<T>::(is_some|is_none)$", nm) and v0[0] == "adt" and v0[2] in ("Ok", "Err", "Some", "None"):
+            yes = {"is_ok": "Ok", "is_err": "Err", "is_some": "Some", "is_none": "None"}[nm.rsplit("::", 1)[1]]
+            return CW.const(1 if v0[2] == yes else 0)
         if re.search(r"slice::<impl \[T\]>::(last|first)$", nm) and v0[0] == "list":
             if not v0[1]:
                 return CW.adt("std::option::Option", "None", 0, [])
